@@ -12,7 +12,14 @@ ok=1
 cp $S/demo_test.go $DD/seed_demo_test.go
 ( cd $DD && timeout 300 go test -vet=off -count=1 -run TestSeedDemo . ) >>$LOG 2>&1 || { echo "demo fails on clean tree" >>$LOG; ok=0; }
 rm -f $DD/seed_demo_test.go
-git apply $S/patch.diff >>$LOG 2>&1 || { echo "patch does not apply" >>$LOG; ok=0; }
+if ! git apply $S/patch.diff >>$LOG 2>&1; then
+  # the worktree moved on since the change was written: three-way, and keep the result as the patch
+  if git apply -3 $S/patch.diff >>$LOG 2>&1 && ! git diff --name-only --diff-filter=U | grep -q .; then
+    git reset -q; git diff > $S/patch.diff; echo "patch re-made by three-way merge" >>$LOG
+  else
+    git reset -q --hard HEAD; echo "patch does not apply" >>$LOG; ok=0
+  fi
+fi
 ( go build ./... && go build -tags verif ./... && go vet . ) >>$LOG 2>&1 || { echo "build/vet fails" >>$LOG; ok=0; }
 for i in 1 2 3; do timeout 600 go test -vet=off -count=1 ./... >>$LOG 2>&1 || { echo "suite fails with patch (run $i)" >>$LOG; ok=0; }; done
 cp $S/demo_test.go $DD/seed_demo_test.go
